@@ -212,7 +212,18 @@ void waCallBegin(const char* fn, int secret, long fail_at)
 	wa_active = 1;
 }
 
-void waCallEnd(void) { wa_active = 0; }
+/* blocks the call left behind: snapshot them as well (dirty = live and not wiped) */
+static long wa_dirty[64]; static int wa_ndirty = 0;
+void waCallEnd(void)
+{
+	int i;
+	wa_active = 0;
+	wa_ndirty = 0;
+	for (i = 0; i < wa_nblk; ++i)
+		if (!waIsWiped((const unsigned char*)wa_blk[i].p, wa_blk[i].n) &&
+			!waIsZero((const unsigned char*)wa_blk[i].p, wa_blk[i].n) && wa_ndirty < 64)
+			wa_dirty[wa_ndirty++] = wa_blk[i].b;
+}
 
 long waAllocCount(void) { return wa_count; }
 long waFailedCount(void) { return wa_nfailed; }
@@ -245,6 +256,7 @@ void waSignals(int* frees, int* unwiped, int* hits)
 void waFlush(FILE* f, long id, long err)
 {
 	int i;
+	fprintf(f, "{\"e\":\"Reset\",\"id\":%ld}\n", id);
 	fprintf(f, "{\"e\":\"CallBegin\",\"id\":%ld,\"fn\":\"%s\",\"secret\":%s,\"failAt\":%ld}\n",
 		id, wa_fn, wa_secret ? "true" : "false", wa_fail_at);
 	for (i = 0; i < wa_nev; ++i)
@@ -269,5 +281,7 @@ void waFlush(FILE* f, long id, long err)
 			fprintf(f, "{\"e\":\"FreeUnknown\",\"id\":%ld}\n", id); break;
 		}
 	}
-	fprintf(f, "{\"e\":\"CallEnd\",\"id\":%ld,\"err\":%ld,\"live\":%d}\n", id, err, wa_nblk);
+	fprintf(f, "{\"e\":\"CallEnd\",\"id\":%ld,\"err\":%ld,\"live\":%d,\"dirty\":[", id, err, wa_nblk);
+	for (i = 0; i < wa_ndirty; ++i) fprintf(f, i ? ",%ld" : "%ld", wa_dirty[i]);
+	fprintf(f, "]}\n");
 }
